@@ -70,6 +70,42 @@ def _norm(node: ast.AST, swap: bool = False) -> str:
     return ast.dump(n, annotate_fields=False, include_attributes=False)
 
 
+def _siblings_agree(idx, c, f, sib):
+    """Evaluate the copy-side method on T and the drop-side method on swap(T) for a small domain of receivers T
+    (intrinsic flags, <= 2 arguments / fields with independent copy/drop flags, definition flags): equal results everywhere?"""
+    flags = list(itertools.product((False, True), repeat=2))
+
+    def mk(ic, idr, parts, nc, nd, swap):
+        def fl(cp, dr):
+            return (dr, cp) if swap else (cp, dr)
+        tys = [Tok(f"ty{i}", copyable=fl(cp, dr)[0], droppable=fl(cp, dr)[1]) for i, (cp, dr) in enumerate(parts)]
+        args = [Tok(f"arg{i}", __class__="TypeArg", ty=t) for i, t in enumerate(tys)] + [Tok("constarg", __class__="ConstArg")]
+        fields = [Tok(f"fld{i}", name=f"f{i}", ty=t) for i, t in enumerate(tys)]
+        a, b = fl(ic, idr)
+        n1, n2 = fl(nc, nd)
+        return Tok("self", intrinsically_copyable=a, intrinsically_droppable=b, args=args, fields=fields, element_types=tys,
+                   defn=Tok("defn", never_copyable=n1, never_droppable=n2, fields=fields), must_be_copyable=a, must_be_droppable=b)
+
+    n = 0
+    bad = []
+    try:
+        for ic, idr in flags:
+            for k in (0, 1, 2):
+                for parts in itertools.product(flags, repeat=k):
+                    for nc, nd in flags:
+                        n += 1
+                        ev1, ev2 = PyEval(idx, c.module.name), PyEval(idx, c.module.name)
+                        r1 = ev1.run(f.node.body, {f.node.args.args[0].arg: mk(ic, idr, parts, nc, nd, False)})
+                        r2 = ev2.run(sib.node.body, {sib.node.args.args[0].arg: mk(ic, idr, parts, nc, nd, True)})
+                        if isinstance(r1[1], Opaque) or isinstance(r2[1], Opaque):
+                            return None, {"why": f"opaque result {r1[1]!r} / {r2[1]!r}"}
+                        if r1 != r2:
+                            bad.append({"intrinsic": [ic, idr], "parts": list(parts), "never": [nc, nd], "copy_side": repr(r1), "drop_side_on_swapped_input": repr(r2)})
+    except (Unsupported, Raised) as e:
+        return None, {"why": str(e)}
+    return not bad, {"cases": n, "counterexamples": bad[:3]}
+
+
 def run(ctx: Ctx) -> None:
     idx = ctx.idx
     mods = (TY, "guppylang_internals.tys.param", "guppylang_internals.definition.ty", "guppylang_internals.definition.struct")
@@ -91,9 +127,17 @@ def run(ctx: Ctx) -> None:
             b = [_norm(s) for s in body_without_docstring(sib.node)]
             da = sorted(d for d in f.decorator_names())
             db = sorted(d for d in sib.decorator_names())
-            ctx.check(a == b and da == db, "R-C14.1", f"{c.qualname}.{name}~{sib.name}", f.where,
-                      {"copy_side": ast.unparse(f.node.body[-1])[:100], "drop_side": ast.unparse(sib.node.body[-1])[:100]},
-                      "the droppable rule is not the copyable rule with the roles renamed (copy-paste slip between the two siblings)")
+            if a == b and da == db:
+                ctx.ok("R-C14.1", f"{c.qualname}.{name}~{sib.name}", f.where, {"identical_up_to_role_swap": True})
+                continue
+            # spelled differently: compare the two siblings by evaluation on role-swapped inputs
+            verdict, facts = _siblings_agree(idx, c, f, sib)
+            facts.update({"copy_side": ast.unparse(f.node.body[-1])[:100], "drop_side": ast.unparse(sib.node.body[-1])[:100], "same_decorators": da == db})
+            if verdict is None:
+                ctx.undecided("R-C14.1", f"{c.qualname}.{name}~{sib.name}", f.where, f"siblings are spelled differently and cannot be evaluated: {facts.get('why')}")
+            else:
+                ctx.check(verdict and da == db, "R-C14.1", f"{c.qualname}.{name}~{sib.name}", f.where, facts,
+                          "the droppable rule is not the copyable rule with the roles renamed (copy-paste slip between the two siblings)")
         # dataclass fields come in pairs too
         flds = [n for n, _ in c.own_fields()]
         for n in flds:
@@ -229,15 +273,17 @@ def run(ctx: Ctx) -> None:
                   "the HUGR bound of a type is Copyable although the Guppy type is not copyable (or Linear although it is)")
     tpar = idx.find_class("TypeParam", "guppylang_internals.tys.param")
     th = tpar.methods.get("to_hugr")
-    for must in (False, True):
-        key = f"{th.qualname}#must_be_copyable={must}"
+    for must, mdrop in itertools.product((False, True), repeat=2):
+        # all four requirement combinations (a `Drop`-only parameter is affine: still not Copyable in HUGR)
+        key = f"{th.qualname}#must_be_copyable={must},must_be_droppable={mdrop}"
         try:
             seen = []
-            out = ev.run(th.node.body, {"self": Tok("param", must_be_copyable=must, must_be_droppable=must),
+            out = ev.run(th.node.body, {"self": Tok("param", must_be_copyable=must, must_be_droppable=mdrop, __classes__=[tpar]),
                                         "ht.TypeTypeParam": lambda node, e, env, seen=seen: seen.append(e.ev(node.keywords[0].value if node.keywords else node.args[0], env)) or Tok("tp")})
             got = seen[0].what.split(".")[-1] if seen and isinstance(seen[0], Opaque) else repr(seen)
             ctx.check(got == ("Copyable" if must else "Linear"), "R-C14.3", key, th.where, {"bound": got},
-                      "a type parameter's HUGR bound does not follow its copyable requirement")
+                      "a type parameter's HUGR bound does not follow its copyable requirement (the declared parameter bound and the bound "
+                      "of the variable's uses disagree)")
         except (Unsupported, Raised) as e:
             ctx.undecided("R-C14.3", key, th.where, str(e))
     # constant classes: copyable True with bound Copyable
